@@ -12,9 +12,13 @@
     markers of code the translator does not recognise.
   * `C07_no_opaque_module_current` (CleverefStmt.lean): the current tables contain no such module and no such handler
     (package cleveref is modelled).
-  So, for the tables translated from the current /repo, the model of the filter raises no exception on any input; what
-  remains between this and the Python code is the correspondence (DESIGN.md 10.3).
+  * `C07_tex2txt_never_crashes(_current)` (NoCrashStmt.lean, a THIRD induction on fuel, Proofs/NoOpaque*.lean: no definition
+    of the parser state ever has an unrecognised handler): for the tables translated from the current /repo and EVERY
+    source text, option record, file system and fuel, `tex2txt … ≠ .crash site` for every site — the model of the filter
+    raises no exception on any input; every run ends in `ok`, in the documented `fatal` exit, or out of fuel.
+  What remains between this and the Python code is the correspondence (DESIGN.md 10.3).
 -/
 import YalafiVerif.Properties.C07Base
 import YalafiVerif.Properties.NoEmptyStmt
 import YalafiVerif.Properties.CleverefStmt
+import YalafiVerif.Properties.NoCrashStmt
